@@ -298,6 +298,11 @@ def op_new_file(step, ctx):
             kw['sul_sequence_number'] = step['seq']
         if 'setid' in step:
             kw['set_identifier'] = step['setid']
+        if step.get('label') == 'ready':
+            # a ready-made StorageUnitLabel instance instead of the keywords
+            from dliswriter.logical_record.misc.storage_unit_label import StorageUnitLabel
+            lkw = {k2: kw[k1] for k1, k2 in (('max_record_length', 'max_record_length'), ('sul_sequence_number', 'sequence_number')) if k1 in kw}
+            kw = {'storage_unit_label': StorageUnitLabel(kw.get('set_identifier', 'MAIN-STORAGE-UNIT'), **lkw)}
         ctx['files'][step['fid']] = DLISFile(**kw)
         ev['outcome'] = 'ok'
     except Exception as e:  # noqa
@@ -316,6 +321,16 @@ def op_add_lf(step, ctx):
             kw['fh_id'] = step['fh_id']
         if 'fh_seq' in step:
             kw['fh_sequence_number'] = step['fh_seq']
+        if step.get('header') in ('ready', 'shared_set'):
+            # a ready-made FileHeaderItem (the route the repository's tests use), optionally in the header set of another logical file
+            from dliswriter.logical_record.eflr_types.file_header import FileHeaderItem, FileHeaderSet
+            if step['header'] == 'shared_set':
+                hs = ctx['lfs'][step['header_of']].file_header.parent
+            else:
+                hs = FileHeaderSet()
+            kw = {'file_header': FileHeaderItem(step.get('fh_id', 'FILE-HEADER'), hs, sequence_number=step.get('fh_seq', 1))}
+        elif step.get('header') == 'same_item':
+            kw = {'file_header': ctx['lfs'][step['header_of']].file_header}
         ctx['lfs'][step['lf']] = ctx['files'][step['fid']].add_logical_file(**kw)
         ctx['lf_fid'][step['lf']] = step['fid']
         ev['outcome'] = 'ok'
@@ -475,7 +490,30 @@ def op_nofmt_data(step, ctx):
         else:
             data = raw
             ev['payload'] = blist(raw)
-        ctx['lfs'][step['lf']].add_no_format_frame_data(ctx['objs'][step['obj']], data)
+        rec = ctx['lfs'][step['lf']].add_no_format_frame_data(ctx['objs'][step['obj']], data)
+        ctx.setdefault('nfrecs', []).append(rec)
+        ev['outcome'] = 'ok'
+    except Exception as e:  # noqa
+        ev['outcome'] = 'raised'
+        ev['exc'] = exc_text(e)
+        ev.setdefault('payload', [])
+    ev['hc'] = hc_flag()
+    return [ev]
+
+
+def op_nofmt_replace(step, ctx):
+    """rec.data = <new payload> for the idx-th accepted no-format record (1-based), between its creation and a write."""
+    p = step['payload']
+    raw = bytes.fromhex(p['hex'])
+    ev = {'op': 'nofmt_replace', 'idx': step['idx'], 'kind': p['kind']}
+    try:
+        if p['kind'] == 'str':
+            data = raw.decode('latin-1')
+            ev['payload'] = [ord(c) for c in data]
+        else:
+            data = bytearray(raw) if p['kind'] == 'bytearray' else raw
+            ev['payload'] = blist(raw)
+        ctx['nfrecs'][step['idx'] - 1].data = data
         ev['outcome'] = 'ok'
     except Exception as e:  # noqa
         ev['outcome'] = 'raised'
@@ -859,7 +897,7 @@ def op_mark(step, ctx):
     return [{'op': 'mark', 'what': step.get('what', ''), 'outcome': 'ok', 'hc': hc_flag()}]
 
 
-OPS = {'mark': op_mark, 'probe': op_probe, 'set_sul': op_set_sul, 'script': op_script, 'attr': op_attr, 'lowwrite': op_lowwrite, 'new_file': op_new_file, 'add_lf': op_add_lf, 'add': op_add, 'set': op_set,
+OPS = {'mark': op_mark, 'probe': op_probe, 'nofmt_replace': op_nofmt_replace, 'set_sul': op_set_sul, 'script': op_script, 'attr': op_attr, 'lowwrite': op_lowwrite, 'new_file': op_new_file, 'add_lf': op_add_lf, 'add': op_add, 'set': op_set,
        'nofmt_data': op_nofmt_data, 'hc_enter': op_hc, 'hc_exit': op_hc, 'hc_exit_exc': op_hc,
        'hc_decorated': op_hc_decorated, 'write': op_write, 'encode': op_encode}
 
